@@ -22,7 +22,10 @@ RULE = (
 RULE += (
     " Exception class 'cached' (one error object raised again and again) is part of every generator; one "
     "program in ten is a 'recatch' program (several children raise the same cached object, one body catches it "
-    "again and again and keeps awaiting)."
+    "again and again and keeps awaiting). One program in five has with-blocks of AsyncContext subclasses "
+    "(outcome compared); one unit awaits @deduplicate() functions (function / method, default / custom "
+    "keygetter) under asyncio while the deduplication table is empty, holds an uncomputed task built earlier "
+    "for the same or another key, or saw the key computed earlier."
 )
 ASSUMPTIONS = ["the quantifier is restricted to what resolve_awaitables claims to support (no batch items, ErrorFuture, lazy Future, result(), scoped values); with-blocks of AsyncContext subclasses are included, compared by outcome"]
 UNIT_TIMEOUT = {"quick": 240, "thorough": 2400}
